@@ -166,6 +166,11 @@ def _subview(m: AllocMachine, op, vals, core):
     m.probe("subview")
 
 
+@handler(memref.CastOp)
+def _memref_cast(m, op, vals, core):
+    vals[op.dest] = m.get(vals, op.source)  # same memory, other static type (e.g. unranked)
+
+
 @handler(memref.DeallocOp)
 def _dealloc(m, op, vals, core):
     m.get(vals, op.memref)
